@@ -94,7 +94,11 @@ def run_closure(ctx, idx):
     rng = ctx.rng(idx)
     tmp = boot.scratch() / f"c13_{idx}"
     tmp.mkdir()
+    from dclab.rtdc_dataset import writer as dwriter
     try:
+        # chunk-size configuration: small chunks make selections of exactly k chunks reachable
+        dwriter.CHUNK_SIZE_BYTES = int(rng.choice([256, 2048, 1024 ** 2]))
+        ctx.count(f"chunk_bytes[{dwriter.CHUNK_SIZE_BYTES}]")
         model = good_model(rng, fl=bool(rng.random() < 0.4))
         p0 = tmp / "w.rtdc"
         gd.write_model(p0, model, with_index=bool(rng.random() < 0.5))
@@ -106,6 +110,12 @@ def run_closure(ctx, idx):
                 if path_kind == "export_filtered":
                     m = rng.random(len(ds)) < 0.6
                     m[0] = True
+                    if len(ds) > 10 and rng.random() < 0.5:
+                        # exactly k * 10 selected events (10 = smallest chunk length)
+                        k10 = 10 * int(rng.integers(1, (len(ds) - 1) // 10 + 1))
+                        m[:] = False
+                        m[rng.choice(len(ds), k10, replace=False)] = True
+                        ctx.count("filtered_exports_of_k_times_10_events")
                     ds.filter.manual[:] = m
                     ds.apply_filter()
                 ds.export.hdf5(tmp / "e.rtdc", features=None,
@@ -121,7 +131,8 @@ def run_closure(ctx, idx):
         elif path_kind == "split":
             (tmp / "parts").mkdir()
             files = cli.split(path_in=p0, path_out=tmp / "parts",
-                              split_events=max(1, model["n"] // 2), ret_out_paths=True)
+                              split_events=int(rng.choice([max(1, model["n"] // 2), 10, 20])),
+                              ret_out_paths=True)
         elif path_kind == "join":
             model2 = {"n": model["n"], "features": model["features"],
                       "meta": {s: dict(kv) for s, kv in model["meta"].items()},
@@ -171,6 +182,7 @@ def run_closure(ctx, idx):
         if idx % 50 == 0:
             ctx.sample({"kind": "closure", "path": path_kind, "model": gd.describe(model)})
     finally:
+        dwriter.CHUNK_SIZE_BYTES = 1024 ** 2
         shutil.rmtree(tmp, ignore_errors=True)
 
 
